@@ -2,9 +2,18 @@
 """Regenerates /verif/MANIFEST.json from the table below (kept next to the checks so it stays current)."""
 import json, os
 ROOT = os.path.dirname(os.path.dirname(os.path.abspath(__file__)))
-HOOK_COMMITS = ["7269fa9"]
+HOOK_COMMITS = ["7269fa9"]  # /repo commits that add the verif-tagged hooks
 # id -> (level, technique, level text, level note, design ref)
 CHECKS = {
+ "C02": ("exploration", "per-call byte-accounting monitor (P ++ X ++ S == consumed input, X == the dump's span) under the resume protocol + metamorphic CLI oracle pp(stream) == stream with pp(dump) substituted",
+         "Streams with known dump positions are scanned with the documented resume protocol by the real ScanSnapshot; a conservation monitor accounts for every input byte per call and globally; all line-kind sequences of bounded length from every scanner state are enumerated; the real pp binary is driven end to end. Held on the streams explored.",
+         "Trusts the stream generator's rule for which first line cannot continue a dump; the EOF-while-withheld class is a listed known finding.", "4/C02"),
+ "C07": ("exploration", "online trace checker: scan-hook transitions vs executable reference line automaton, exhaustive bounded line-kind sequences from every scanner state + resume-protocol monitor on generated multi-dump streams",
+         "Every (state, line-kind) transition the real scanner takes on all sequences of L lines over a 28-text alphabet, started from each of its states, is compared online with a reference automaton written from the documentation; generated streams check one snapshot per dump, equal to ground truth and to the dump scanned alone, no position scanned twice or skipped. Exhaustive for the bounded sequence space, sampled for streams.",
+         "Trusts the reference automaton (DESIGN appendix A; 'either' cells are not decided) and the scan hook reporting the true scanner state.", "4/C07"),
+ "C08": ("exploration", "generated race reports vs abstract ground truth (field-by-field oracle), negative variant with unknown goroutine id, remainder accounting after the closing separator",
+         "Reports printed by a model of tsan's Go report printer are parsed by the real ScanSnapshot and compared with the abstract report; the text after the closing separator must come back as remainder; a creation section for an unknown goroutine must be an error and must not be attributed to another goroutine. Held on the reports explored.",
+         "Trusts the generator's reading of tsan_report.cpp (Go branch).", "4/C08"),
  "C01": ("exploration", "generated dumps vs abstract ground truth (field-by-field oracle) + live-runtime registry vs runtime.Callers",
          "Every dump printed by a model of the runtime's traceback printer (all 864 format-variant combinations, all symbol/file/argument shapes, lines > 16 KiB) is parsed by the real ScanSnapshot and compared field by field with the abstract dump it was printed from; live rounds compare the running process's own dump with a registry built from runtime.Callers. Held-on-what-was-explored; the input space is unbounded.",
          "Trusts the generator's reading of runtime/traceback.go and of the linker's PathToPrefix escaping; 64-bit host.", "4/C01"),
